@@ -341,6 +341,7 @@ def fold1 (f : V → V → V) : List V → List V
   | [] => []
   | v :: r => [r.foldl f v]
 
+omit [DecidableEq K] in
 theorem run_reduces (u : User K V A) (dflt : V) (k : K) (rop : Nat) (vs : List V) (x : V) :
     (Dist.run ⟨applyK u dflt⟩ [x] (vs.map (fun v => Op.reduce k v rop))).state
       = [vs.foldl (u.reducer rop) x] := by
@@ -417,6 +418,7 @@ theorem queries_agree_for_all (m : Assoc K V) (k : K) (v : V) :
 /-- `count(key)` is the number of values stored under the key -/
 theorem queries_agree_count (m : Assoc K V) (k : K) : count m k = (values m k).length := rfl
 
+omit [DecidableEq K] in
 /-- global size / count are the sums of the local ones (`all_reduce_sum`), and only the owner
 contributes to a count -/
 theorem queries_agree_size_global (ms : List (Assoc K V)) :
@@ -514,6 +516,7 @@ theorem queries_agree_gather_map (m : Assoc K V) (h : NodupKeys m) (keys : List 
     have e2 := hone k v' ((queries_agree_gather_multi m keys k v').2.1 h2).2
     rw [e1] at e2; simpa using e2
 
+omit [DecidableEq K] in
 /-- `topk(n, cfn)`: `min n size` stored pairs, in the order of the comparator (for a total,
 transitive comparator); the whole contents when `n ≥ size` -/
 theorem queries_agree_topk (n : Nat) (le : K × V → K × V → Bool) (m : Assoc K V) :
